@@ -379,6 +379,29 @@ def rule_memo(ctx, px, R="R-C10-MEMO"):
                         problems.append(f"process-wide memo keyed by `{a.arg}: {ann}`: model objects compare by name and version, but the result "
                                         f"{'retains the object' if retains else 'depends on its content ' + str(reads)}; entries outlive the generator "
                                         "run that created them and serve a later run stale results")
+        # the object a memoising factory hands out is shared by all its callers: nobody may change it
+        for g in px.all_funcs:
+            if g is f:
+                continue
+            holders = set()
+            for x in ast.walk(g.node):
+                if isinstance(x, ast.Assign) and isinstance(x.value, ast.Call) and (
+                        (isinstance(x.value.func, ast.Name) and x.value.func.id == f.name) or
+                        (isinstance(x.value.func, ast.Attribute) and x.value.func.attr == f.name)):
+                    holders |= {t.id for t in x.targets if isinstance(t, ast.Name)}
+            for x in ast.walk(g.node):
+                tgt = None
+                if isinstance(x, ast.Assign):
+                    tgt = [t for t in x.targets if isinstance(t, (ast.Attribute, ast.Subscript))]
+                elif isinstance(x, ast.AugAssign) and isinstance(x.target, (ast.Attribute, ast.Subscript)):
+                    tgt = [x.target]
+                for t in tgt or []:
+                    if isinstance(t.value, ast.Name) and t.value.id in holders:
+                        problems.append(f"{g.short} changes `{ast.unparse(t)}` on the object returned by the cached {f.name}(): the change persists for "
+                                        "every later caller in the process (output depends on which inputs were seen before)")
+                if isinstance(x, ast.Call) and isinstance(x.func, ast.Attribute) and x.func.attr in MUTATORS and isinstance(x.func.value, ast.Name) \
+                        and x.func.value.id in holders:
+                    problems.append(f"{g.short} mutates the object returned by the cached {f.name}() via .{x.func.attr}()")
         ok = not problems
         ctx.ob(R, f.module.rel, f"{f.short} [{'/'.join(d for d in decos if d in CACHE_DECOS)}]", ok,
                "pure memo: result depends on arguments only" if ok else "; ".join(sorted(set(problems))), f.node.lineno)
